@@ -405,8 +405,9 @@ where
     let n_chains = g.range(1, 6);
     let dim = g.range(1, 5);
     let seed = g.next_u64();
-    let (a, d, b) = (g.range(0, 12), g.range(0, 8), g.range(0, 12));
-    let l = g.range(1, 6);
+    // mostly short histories; one in five long enough to cross internal block sizes (64, 128, 256 rows)
+    let (a, d, b) = if g.chance(0.2) { (g.range(60, 300), g.range(0, 70), g.range(0, 80)) } else { (g.range(0, 12), g.range(0, 8), g.range(0, 12)) };
+    let l = if a > 20 { 1 } else { g.range(1, 6) };
     let eps = g.uniform(0.05, 0.4);
     // values that are not representable in the narrower of the two float types involved
     let inits: Vec<Vec<T>> = (0..n_chains).map(|_| (0..dim).map(|_| T::of(g.normal())).collect()).collect();
